@@ -38,6 +38,8 @@ class Prop(common.PropertyCheck):
                 dt = 'F'
                 rows[0].update({'iid': 'FC001', 'nonneg': True}); rows[1].update({'iid': 'FC001', 'nonneg': False})
                 rows[0]['units'][0] = rows[1]['units'][0] = rng.choice(['a.u.', 'RFI'])
+                if len(rows) < 3:
+                    rows.append({'iid': 'FC001', 'units': [rng.choice(UNITS) for _ in range(3)], 'gf': 1.0, 'nonneg': 'zero', 'scatter_out': True})
                 # and a float row gated at fraction 1 with scatter events outside the declared range, fluorescence clipped at zero
                 rows[-1].update({'gf': rng.choice([1.0, 1]), 'scatter_out': True, 'nonneg': 'zero'})
                 rows[-1]['units'][1] = rng.choice(['a.u.', 'RFI', 'Channel'])
